@@ -53,6 +53,7 @@ class Tracer:
         self.raw_fds = {}  # fileno -> relpath of traced files (for fd-level copies: sendfile)
         self.open_files = []
         self.fired = False
+        self.disk_full = False
         self.name_seed = name_seed
 
     # ---- bookkeeping ----------------------------------------------------------
@@ -86,6 +87,8 @@ class Tracer:
             rec.append(info)
         self.trace.append(rec)
         f = self.fault
+        if self.disk_full and name in ("write", "os.write", "sendfile", "copy_file_range", "mkdir", "os.open", "open"):
+            raise OSError(errno.ENOSPC, "No space left on device (injected: disk filled up)", path)
         if f.at == idx and not self.fired:
             self.fired = True
             if f.kind == "crash":
@@ -98,6 +101,13 @@ class Tracer:
                 raise OSError(errno.EIO, "Input/output error (injected)", path)
             if f.kind == "eio_after":
                 return "after"
+            if f.kind == "disk_full":
+                # what the kernel does when the disk fills up in the middle of a write: it
+                # stores what fits and returns a short count WITHOUT an error; only later calls fail
+                self.disk_full = True
+                if name in ("write", "os.write"):
+                    return "short_ok"
+                raise OSError(errno.ENOSPC, "No space left on device (injected)", path)
         return None
 
     def next_bufsize(self):
@@ -128,6 +138,9 @@ class TracedRaw(io.RawIOBase):
             mv = memoryview(b)
             self._f.write(mv[: len(mv) // 2])
             raise OSError(errno.EIO, "Input/output error (injected, short write)", self._p)
+        if act == "short_ok":
+            mv = memoryview(b)
+            return self._f.write(mv[: len(mv) // 2])
         return self._f.write(b)
 
     def readinto(self, b):
@@ -265,6 +278,8 @@ def install(tracer):
             if act == "short":
                 R["os_write"](fd, bytes(data)[: len(data) // 2])
                 raise OSError(errno.EIO, "Input/output error (injected, short write)")
+            if act == "short_ok":
+                return R["os_write"](fd, bytes(data)[: len(data) // 2])
         return R["os_write"](fd, data)
 
     def fd_copy(name):
@@ -385,6 +400,8 @@ def install(tracer):
             return "".join(self.rng.choice("abcdefghijklmnopqrstuvwxyz0123456789_") for _ in range(8))
 
     tempfile._name_sequence = _Names(t.name_seed)
+    # the process id is one more source of nondeterminism (it ends up in scratch-file names)
+    os.getpid = lambda: 4242
     if t.tmpdir:
         # a private TMPDIR per run (outside the watched directory): leftovers of killed runs
         # must not change the names later runs get
